@@ -6,7 +6,8 @@ var chainMeta = map[string]any{
 		"state.StateDB, trie, trie.Database":                              "real",
 		"aquahash engine":                                                 "real rules, fake seal (ModeFake)",
 		"block building (core.GenerateChain)":                             "real",
-		"miner (opt/miner worker, CPU agent, unconfirmed set), core.TxPool (C01 miner histories)": "real; proof-of-work discovery is the simulator's (Seal parks on a gate)",
+		"miner (opt/miner worker, CPU agent, unconfirmed set), core.TxPool (C01 miner histories)":                                      "real; proof-of-work discovery is the simulator's (Seal parks on a gate)",
+		"fast sync (C05/C06 histories): InsertHeaderChain, InsertReceiptChain, state.NewStateSync / trie.TrieSync, FastSyncCommitHead": "real; the downloader around them is the simulator's (the oracle node's database answers the scheduler's requests in seeded order and batch sizes)",
 		"disk (LevelDB)":                                   "stub: simdisk",
 		"network / gossip, downloader, fetcher":            "stub: deliveries are plan operations (direct mode)",
 		"oracle node O":                                    "real code on a fault-free in-memory database, one more history",
